@@ -1169,6 +1169,31 @@ def m_ptr_eq(ip, fr, c, t, args, st):
     return [(("peq", args[0], args[1], False), st)]
 
 
+@model("std::convert::Into::into", "<T as std::convert::Into<U>>::into")
+def m_into(ip, fr, c, t, args, st):
+    """x.into(): the blanket impl calls U::from(x); for a crate-local From impl that body is run"""
+    dest = t["dest"]["ty"] if isinstance(t["dest"].get("ty"), str) else ""
+    a = [x for x in (c.fn.get("args") or []) if x.get("k") not in ("region", "const")] if c.fn else []
+    want_self = a[1].get("name") if len(a) > 1 and a[1].get("k") == "adt" else None
+    want_in = a[0].get("name") if a and a[0].get("k") == "adt" else None
+    cands = []
+    for b in ip.f.bodies:
+        if b.impl_trait == "std::convert::From" and b.name == "from" and b.impl_self and b.impl_self.get("k") == "adt":
+            ins = b.j.get("inputs") or []
+            if want_self and b.impl_self.get("name") != want_self:
+                continue
+            if want_in and not (ins and ins[0].get("k") == "adt" and ins[0].get("name") == want_in):
+                continue
+            if not want_self and b.impl_self.get("name", "").split("::")[-1] not in dest:
+                continue
+            cands.append(b)
+    if len(cands) == 1:
+        return ip.call_body(cands[0], [args[0]], st, fr.chain)
+    if want_self is None and want_in is None:
+        return [(args[0], st)]          # T: Into<T> (identity)
+    return [(ip.fresh_of_ty(st, t["dest"]["ty"], "into"), st)]
+
+
 @model("std::cmp::PartialEq::ne")
 def m_ne(ip, fr, c, t, args, st):
     for tb in c.type_targets:
